@@ -176,7 +176,9 @@ func classify(sc am.Schema, index am.S, tx kit.TxRec, v verdict) string {
 						}
 						return false
 					}
-					if (!kit.Has(C, x) && addImplied(x)) || (!kit.Has(C, y) && addImplied(y)) {
+					// (a state both called - e.g. by the auto mutation - and
+					// Add-implied enters the same way)
+					if addImplied(x) || addImplied(y) {
 						implied = true
 					} else {
 						other = true
